@@ -266,10 +266,25 @@ func c12CounterEdge(start uint32) *vlib.Result {
 	}
 	dir.Counter = start
 	sentOK := 0
-	for i := 0; i < 8; i++ {
+	refusedAt := -1
+	for i := 0; i < 12; i++ {
 		err := ns.SendMessage(ctx, []byte{byte(i)})
 		if err != nil {
-			break
+			// a refusal must be permanent: the counter has nowhere left to go
+			if refusedAt < 0 {
+				refusedAt = i
+			}
+			if len(nc.W) != 0 {
+				if fr, _ := refcodec.ParseFrames(nc.W); len(fr) > 0 {
+					res.Violate("C12/counter-edge/frame-with-refusal", "send %d refused (%v) yet %d frame(s) reached the connection", i, err, len(fr))
+				}
+				nc.W = nil
+			}
+			continue
+		}
+		if refusedAt >= 0 {
+			res.Violate("C12/counter-edge/sent-after-refusal", "started at %d: send %d was refused at the counter limit, yet send %d went out afterwards - the counter wrapped and the nonce sequence restarts under the same key", start, refusedAt, i)
+			return res
 		}
 		sentOK++
 		frames, _ := refcodec.ParseFrames(nc.W)
@@ -303,7 +318,7 @@ func c12CounterEdge(start uint32) *vlib.Result {
 func C12Plan() *vlib.Plan {
 	p := &vlib.Plan{
 		Property: "C12", Level: "model_checking",
-		Rule: "E-BFS over send histories: all sequences of length <= D over 11 operations (A/B sends 0/1/17/5000 bytes, A/B sends a secret, toggle crypto mode) x 4 cleartext-prefix shapes, each replayed on two fresh real streams; state = (prefix shape, protected frames sent per direction, crypto mode). Every protected frame is opened by the independent reference decryptor (nonce = base IV word0 + counter, AAD = header / digests||header on the first frame), IVs compared across directions and all sessions of the run, reference-built frames fed to the real receiver; counter edge through imported state. Non-trivial = history emitted >= 1 protected frame.",
+		Rule:   "E-BFS over send histories: all sequences of length <= D over 11 operations (A/B sends 0/1/17/5000 bytes, A/B sends a secret, toggle crypto mode) x 4 cleartext-prefix shapes, each replayed on two fresh real streams; state = (prefix shape, protected frames sent per direction, crypto mode). Every protected frame is opened by the independent reference decryptor (nonce = base IV word0 + counter, AAD = header / digests||header on the first frame), IVs compared across directions and all sessions of the run, reference-built frames fed to the real receiver; counter edge through imported state. Non-trivial = history emitted >= 1 protected frame.",
 		Assume: []string{"reference decryptor written from the property text (refcodec), uses Go's AES-GCM primitive", "IV randomness is judged only by distinctness over all sessions of the run"},
 	}
 	p.Gen = func(tier string, yield func(vlib.Case)) {
